@@ -24,6 +24,7 @@ func TestMain(m *testing.M) { hx.Main(m, run) }
 type Case struct {
 	Type       string // Go type name of the top-level value ("*telegram.User", "telegram.BaseTheme")
 	Enum       uint32 `json:",omitempty"` // for enum types: the member
+	Wide       int    `json:",omitempty"` // > 0: the first vector of objects in the value is given exactly this many elements
 	Draws      []uint64
 	Depth      int
 	Big        bool
@@ -101,7 +102,52 @@ func build(c *Case, src tlx.Src) (reflect.Value, *tlx.Builder, error) {
 			}
 		}
 	}
+	if c.Wide > 0 && !widen(b, v, c.Wide) {
+		return reflect.Value{}, nil, fmt.Errorf("INFRA: %s has no vector of objects to widen", c.Type)
+	}
 	return v, b, nil
+}
+
+// widen gives the first vector of objects found in v (two levels deep) exactly n elements.
+func widen(b *tlx.Builder, v reflect.Value, n int) bool {
+	var walk func(v reflect.Value, depth int) bool
+	walk = func(v reflect.Value, depth int) bool {
+		for v.Kind() == reflect.Ptr || v.Kind() == reflect.Interface {
+			if v.IsNil() {
+				return false
+			}
+			v = v.Elem()
+		}
+		if v.Kind() != reflect.Struct {
+			return false
+		}
+		for i := 0; i < v.NumField(); i++ {
+			f := v.Field(i)
+			if f.Kind() == reflect.Slice && f.CanSet() {
+				switch f.Type().Elem().Kind() {
+				case reflect.Ptr, reflect.Interface, reflect.Struct:
+					if f.Len() == 0 {
+						continue // an absent conditional vector stays absent
+					}
+					out := reflect.MakeSlice(f.Type(), 0, n)
+					for k := 0; k < n; k++ {
+						out = reflect.Append(out, f.Index(k%f.Len()))
+					}
+					f.Set(out)
+					return true
+				}
+			}
+		}
+		if depth > 0 {
+			for i := 0; i < v.NumField(); i++ {
+				if walk(v.Field(i), depth-1) {
+					return true
+				}
+			}
+		}
+		return false
+	}
+	return walk(v, 2)
 }
 
 func oracle(v reflect.Value) error {
@@ -196,12 +242,16 @@ func evaluate(c *Case, src tlx.Src) error {
 		cls = append(cls, "feat:str-len-2^24-1")
 		nt = true
 	}
+	if c.Wide > 0 {
+		cls = append(cls, "feat:vector>=999")
+		nt = true
+	}
 	if c.Enum != 0 {
 		cls = append(cls, "top-level-enum", fmt.Sprintf("ctor:%s#%08x", c.Type, c.Enum))
 	} else {
 		cls = append(cls, "ctor:"+c.Type)
 	}
-	run.Case(nt, evid.Hash(c.Type, c.Enum, fmt.Sprint(c.Draws), fmt.Sprint(c.ForceState), fmt.Sprint(c.ForceMask), c.Huge), cls...)
+	run.Case(nt, evid.Hash(c.Type, c.Enum, fmt.Sprint(c.Draws), fmt.Sprint(c.ForceState), fmt.Sprint(c.ForceMask), c.Huge, c.Wide), cls...)
 	if len(c.Dump) < 400 {
 		run.Sample(map[string]any{"type": c.Type, "value": c.Dump, "draws": len(c.Draws)})
 	}
@@ -398,6 +448,47 @@ func TestC01(t *testing.T) {
 			}
 		}
 		run.Exhaustive("presence patterns of all multi-field flag groups (this shard's share)", n)
+	})
+	t.Run("wide-vectors", func(t *testing.T) {
+		// very many items: vectors of objects with 999 / 1000 / 1001 / 4097 (thorough: 70000) elements
+		widths := []int{999, 1000, 1001, 4097}
+		if run.Thorough() {
+			widths = append(widths, 65537, 70000)
+		}
+		var n int64
+		idx := 0
+		for _, name := range names {
+			pt := byName[name]
+			if excluded(name) != "" || pt.Kind() != reflect.Ptr || pt.Elem().Kind() != reflect.Struct {
+				continue
+			}
+			has := false
+			for i := 0; i < pt.Elem().NumField(); i++ {
+				ft := pt.Elem().Field(i).Type
+				if ft.Kind() == reflect.Slice && (ft.Elem().Kind() == reflect.Ptr || ft.Elem().Kind() == reflect.Interface) {
+					has = true
+				}
+			}
+			if !has {
+				continue
+			}
+			idx++
+			if idx%nsh != run.Shard || n >= int64(run.Pick(12, 400)) {
+				continue
+			}
+			c := &Case{Type: name, Depth: 2, Wide: widths[idx/nsh%len(widths)], ForceState: nil}
+			err := evaluate(c, &tlx.Xor{S: run.Seed*53 + uint64(idx)})
+			if err != nil && strings.HasPrefix(err.Error(), "INFRA:") {
+				continue // the drawn value left that vector absent
+			}
+			n++
+			if err != nil {
+				p := run.ViolationNamed(fmt.Sprintf("wide-%s-%d", strings.TrimPrefix(name, "*"), c.Wide), c, err.Error())
+				t.Errorf("violation (replay %s): %v", p, err)
+				return
+			}
+		}
+		run.Exhaustive("vectors of objects widened to 999..4097 elements (this shard's share, capped)", n)
 	})
 	if run.Thorough() && run.Shard == 0 {
 		t.Run("huge-strings", func(t *testing.T) {
